@@ -160,8 +160,6 @@ def match_known(open_f, sources, kind, detail):
         if "overflow" in detail and overflow_finding(open_f):
             return overflow_finding(open_f)
     if kind == "ts-run":
-        if any(OCTAL.search(l) for l in lits) and "octal" in detail.lower() and "C03-F4" in open_f:
-            return "C03-F4"
         if any(("`" in l or "${" in l) for l in lits) and "C04-F3" in open_f:
             return "C04-F3"
     return None
@@ -311,7 +309,7 @@ def check_strings(ctx, rng, n, stats, open_f):
     steer = "C03-F4" in open_f
     raws = [gen_raw(rng, steer) for _ in range(n)]
     raws = [r for r in dict.fromkeys(raws) if "\n" not in r]
-    raws.append("a\\01b")         # dedicated probe for C03-F4
+    raws += ["a\\01b", "\\0", "\\09\\n`${"]      # regression probes (former C03-F4: `\\0` before a digit)
     answers = eval_programs([str_prog(r) for r in raws])
     model = run_model(["str " + hexs(r) for r in raws])
     for r, a, m in zip(raws, answers, model):
@@ -319,9 +317,6 @@ def check_strings(ctx, rng, n, stats, open_f):
         stats["str_cases"] += 1
         stats["str_hist"][m] = stats["str_hist"].get(m, 0) + 1
         if ia is None:
-            continue
-        if ia == "open" and m == "open" and OCTAL.search(r) and "C03-F4" in open_f:
-            known_once(ctx, open_f["C03-F4"], f'string literal "{r}": ' + a.get("ts", {}).get("end", "")[:120])
             continue
         if ia == "open":
             ctx.violation(f'emitted TypeScript is not valid for the accepted string literal "{r}" (model: {m}): ' + a["ts"]["end"][:120],
@@ -975,6 +970,71 @@ def check_multimodule(ctx, rng, n, stats, open_f):
                 return
 
 
+
+# ------------------------------------------------------------------ oracle E: nested loops (tail-recursive functions calling tail-recursive functions)
+
+def gen_loops(rng):
+    """Two to four self-tail-recursive functions (each becomes a `While`), where an outer one calls an
+    inner one (inlined: a loop nested in the loop body) BEFORE its own exit test, after it, in both
+    branches, inside a match arm, or twice; small bounds so that every run terminates."""
+    c = rng.range(1, 3)
+    fns = []
+    inner_kind = rng.below(3)
+    if inner_kind == 0:
+        fns.append(f"  function inner(n: int, acc: int): int =\n    if n <= 0 {{ acc }} else {{ Main.inner(n - 1, acc + n * {c}) }}\n")
+    elif inner_kind == 1:
+        fns.append(f"  function inner(n: int, acc: int): int =\n    if n > 0 {{ Main.inner(n - {c}, acc + 1) }} else {{ acc }}\n")
+    else:
+        fns.append("  function inner(n: int, acc: int): int = {\n    let m = n % 5;\n    if n <= 0 { acc + m } else { Main.inner(n / 2, acc + m) }\n  }\n")
+    lim = rng.range(5, 60)
+    style = rng.below(6)
+    if style == 0:      # call before the exit test
+        fns.append("  function outer(i: int, limit: int): int = {\n    let t = Main.inner(i, 0);\n"
+                   "    if t > limit || i > 40 { i } else { Main.outer(i + 1, limit) }\n  }\n")
+    elif style == 1:    # call after the exit test, in the continuing branch
+        fns.append("  function outer(i: int, limit: int): int =\n    if i > 40 { i } else {\n      let t = Main.inner(i, 1);\n"
+                   "      if t > limit { t } else { Main.outer(i + 2, limit) }\n    }\n")
+    elif style == 2:    # two inner loops, before and inside the branch
+        fns.append("  function outer(i: int, limit: int): int = {\n    let a = Main.inner(i, 0);\n    let b = Main.inner(a % 7, i);\n"
+                   "    if a + b > limit || i > 30 { a + b } else { Main.outer(i + 1 + Main.inner(2, 0) % 2, limit) }\n  }\n")
+    elif style == 3:    # inner loop in a match arm of the loop body
+        fns.append("  function outer(i: int, limit: int): int = {\n    let o = if i % 2 == 0 { Opt.Yes(i) } else { Opt.No() };\n"
+                   "    let t = match o { Yes(v) -> Main.inner(v, 0), No -> Main.inner(3, i) };\n"
+                   "    if t > limit || i > 40 { t } else { Main.outer(i + 1, limit) }\n  }\n")
+    elif style == 4:    # accumulating outer loop with the inner call in the recursive argument
+        fns.append("  function outer(i: int, limit: int): int =\n    if i > limit { i } else { Main.outer(i + 1 + Main.inner(i % 4, 0), limit) }\n")
+    else:               # exit value is itself an inner loop
+        fns.append("  function outer(i: int, limit: int): int = {\n    let t = Main.inner(i % 6, i);\n"
+                   "    if i > 20 { Main.inner(t % 9, 0) } else { Main.outer(i + 1 + t % 2, limit) }\n  }\n")
+    calls = [f"Main.outer({rng.range(0, 5)}, {lim})"]
+    if rng.chance(1, 2):    # a third level: a loop around `outer`
+        fns.append("  function top(k: int, s: int): int = {\n    let r = Main.outer(k, " + str(lim) + ");\n"
+                   "    if k >= 4 { s + r } else { Main.top(k + 1, s + r % 11) }\n  }\n")
+        calls.append(f"Main.top({rng.range(0, 3)}, 0)")
+    if rng.chance(1, 3):    # mutual position: loop after loop in the same body (siblings, not nested)
+        fns.append("  function twice(i: int): int = {\n    let a = Main.inner(i, 0);\n    let b = Main.outer(a % 3, " + str(lim) + ");\n"
+                   "    if i > 6 { a + b } else { Main.twice(i + 1) }\n  }\n")
+        calls.append(f"Main.twice({rng.range(0, 3)})")
+    main = "".join(f"    let _ = Process.println(Str.fromInt({c}));\n" for c in calls)
+    src = "class Opt(No, Yes(int)) {}\nclass Main {\n" + "".join(fns) + "  function main(): unit = {\n" + main + "  }\n}\n"
+    return {"sources": {"Main": src}, "entry": "Main", "std": False, "run": True, "ts": True, "timeout_ms": 8000}
+
+
+def check_loops(ctx, rng, n, stats, open_f):
+    progs = [gen_loops(rng.fork()) for _ in range(n)]
+    for p, a in zip(progs, eval_programs(progs)):
+        stats["loop_programs"] = stats.get("loop_programs", 0) + 1
+        stats["gate_lines"].append((a.get("nerr", -1), a.get("compile")))
+        if a.get("check") != "done" or a.get("nerr", 1) != 0:
+            ctx.violation("nested-loop generator produced a program the checker does not accept (generator and front end disagree)",
+                          {"program": p, "answer": a, "broken": "nested-loop oracle base program"}, no_input=True)
+            return
+        e = a.get("wasm", {}).get("end", "?").split(":")[0]
+        stats["loop_end_hist"] = stats.get("loop_end_hist", {})
+        stats["loop_end_hist"][e] = stats["loop_end_hist"].get(e, 0) + 1
+        if report(ctx, open_f, "generated nested-loop program (tail-recursive function calling a tail-recursive function)", p, a, stats, shrink=shrink_lines) and len(ctx.violations) > 3:
+            return
+
 # ------------------------------------------------------------------ gate tie
 
 def check_gate(ctx, stats):
@@ -1102,6 +1162,7 @@ def run(ctx):
         check_kernels(ctx, r, 3000, stats, open_f)
         check_strings(ctx, r, 60, stats, open_f)
         check_multimodule(ctx, r, 6, stats, open_f)
+        check_loops(ctx, r, 30, stats, open_f)
         return any(not v[1] for v in ctx.violations[before:])
 
     res = common.proof_gate(ctx, search)
@@ -1114,6 +1175,7 @@ def run(ctx):
         ("strings", lambda: check_strings(ctx, rng.fork(), ctx.scale(70, 1500), stats, open_f)),
         ("matches", lambda: check_matches(ctx, rng.fork(), ctx.scale(120, 4000), stats, open_f)),
         ("multimodule", lambda: check_multimodule(ctx, rng.fork(), ctx.scale(12, 250), stats, open_f)),
+        ("loops", lambda: check_loops(ctx, rng.fork(), ctx.scale(40, 800), stats, open_f)),
         ("generated", lambda: check_generated(ctx, rng.fork(), ctx.scale(40, 600), stats, open_f)),
         ("mutants", lambda: check_mutants(ctx, rng.fork(), ctx.scale(320, 3000), stats, open_f)),
         ("gate", lambda: check_gate(ctx, stats)),
@@ -1123,13 +1185,13 @@ def run(ctx):
             break
         f()
     evaluations = (stats["kernel_lines"] + stats["str_cases"] + stats["match_cases"] + stats["mutants"] +
-                   stats["generated"] + stats["mm_bases"] + stats["mm_mutants"] + stats["corpus"])
-    nontrivial = (stats["mutants_accepted"] + stats["generated_accepted"] + stats["mm_bases"] + stats["mm_mutants_accepted"] +
+                   stats["generated"] + stats["mm_bases"] + stats["mm_mutants"] + stats["corpus"] + stats.get("loop_programs", 0))
+    nontrivial = (stats.get("loop_programs", 0) + stats["mutants_accepted"] + stats["generated_accepted"] + stats["mm_bases"] + stats["mm_mutants_accepted"] +
                   stats["match_acc"].get("1", 0) + stats["str_hist"].get("closed", 0))
     gl = stats.pop("gate_lines")
     ctx.cov.update({
         "evaluations": evaluations, "distinct_nontrivial": nontrivial,
-        "rule": "evaluations = kernel lines + string-literal programs + generated matches + sample/std mutants + generated programs + multi-module bases and cross-module mutants + corpus; non-trivial = programs the real checker ACCEPTED that were then compiled in-process, validated by wasmparser and executed on both back ends under Node (accepted mutants, generated programs, accepted matches, closed string literals)",
+        "rule": "evaluations = kernel lines + string-literal programs + generated matches + sample/std mutants + generated programs + nested-loop programs + multi-module bases and cross-module mutants + corpus; non-trivial = programs the real checker ACCEPTED that were then compiled in-process, validated by wasmparser and executed on both back ends under Node (accepted mutants, generated programs, accepted matches, closed string literals)",
         "samples": stats.pop("samples"), "traces_validated_against_impl": stats["kernel_lines"] + stats["str_cases"] + stats["match_cases"] + len(gl),
         "stats": stats,
         "pending": ["type soundness of the checker and well-typedness of wasm lowering are not proved (oracle only)",
